@@ -1001,21 +1001,26 @@ Qed.
 (* ------------------------------------------------------------------ *)
 (** * 5. Legal moves, parsed boards, reachable boards *)
 
-(* "small": the iterator's drain bound (IterFacts.legals_drain) *)
-Notation small b := (length (content (legals_gen b)) <= 400)%nat (only parsing).
-
-Lemma legal_gen_move : forall b m, small b -> is_legal b m = true -> gen_move b m.
+(* is_legal = membership in what board.legals() yields = membership in the collected entries
+   (IterFacts.legals_drain: the drain is complete, its fuel MoveGen.drain_bound always suffices) *)
+Lemma legal_gen_move : forall b m, is_legal b m = true -> gen_move b m.
 Proof.
-  intros b m Hlen H. apply CoreFacts.is_legal_iff in H.
-  exact (Permutation_in _ (legals_drain b Hlen) H).
+  intros b m H. apply CoreFacts.is_legal_iff in H.
+  exact (Permutation_in _ (legals_drain b) H).
 Qed.
 
-Theorem apply_legal_consistent : forall b m, Inv b -> own_king b -> is_legal b m = true -> small b ->
-  Part (apply b m) /\ consistent (apply b m).
-Proof. intros b m I K L S. exact (apply_gen_consistent b m I K (legal_gen_move b m S L)). Qed.
+Lemma gen_move_legal : forall b m, gen_move b m -> is_legal b m = true.
+Proof.
+  intros b m H. apply CoreFacts.is_legal_iff.
+  exact (Permutation_in _ (Permutation_sym (legals_drain b)) H).
+Qed.
 
-Theorem Inv_apply_legal : forall b m, Inv b -> own_king b -> is_legal b m = true -> small b -> Inv (apply b m).
-Proof. intros b m I K L S. exact (Inv_apply b m I K (legal_gen_move b m S L)). Qed.
+Theorem apply_legal_consistent : forall b m, Inv b -> own_king b -> is_legal b m = true ->
+  Part (apply b m) /\ consistent (apply b m).
+Proof. intros b m I K L. exact (apply_gen_consistent b m I K (legal_gen_move b m L)). Qed.
+
+Theorem Inv_apply_legal : forall b m, Inv b -> own_king b -> is_legal b m = true -> Inv (apply b m).
+Proof. intros b m I K L. exact (Inv_apply b m I K (legal_gen_move b m L)). Qed.
 
 (* --- boards accepted by Board::validate --- *)
 Lemma validate_none : forall b, validate b = None ->
@@ -1145,18 +1150,18 @@ Proof. exact (parse_Inv _ _ CoreFacts.standard_parses). Qed.
 (* --- reachable boards --- *)
 (* The side condition of R_move is stated on the board the move is made from: its side to move
    still has a king (after a move this is the statement that the move made did not capture the
-   king: property C01) and the board is small enough for the iterator's drain bound. *)
+   king: property C01; discharged in proofs/Reachable.v once exactness is available). *)
 Inductive Reach : board -> Prop :=
 | R_parse : forall s b, parse_fen_t s = Ret (POk b) -> Reach b
 | R_standard : Reach standard
-| R_move : forall b m, Reach b -> own_king b -> small b -> is_legal b m = true -> Reach (apply b m).
+| R_move : forall b m, Reach b -> own_king b -> is_legal b m = true -> Reach (apply b m).
 
 Theorem Reach_Inv : forall b, Reach b -> Inv b.
 Proof.
-  intros b R. induction R as [s b H| |b m R IH K S L].
+  intros b R. induction R as [s b H| |b m R IH K L].
   - exact (proj1 (parse_Inv s b H)).
   - exact (proj1 standard_Inv).
-  - exact (Inv_apply_legal b m IH K L S).
+  - exact (Inv_apply_legal b m IH K L).
 Qed.
 
 Corollary Reach_consistent : forall b, Reach b -> Part b /\ b_zob b = scratch_piece_hash b.
@@ -1164,12 +1169,12 @@ Proof. intros b R. destruct (Reach_Inv b R) as [P C _ _]. split; [exact P|exact 
 
 (* the statement left open in HashFacts (apply_legal_consistent_statement), with the hypotheses it needs *)
 Corollary apply_legal_consistent_validated : forall b m, Part b -> b_zob b = scratch_piece_hash b ->
-  b_rights b < 16 -> (forall f, b_ep b = Some f -> f < 8) -> validate b = None -> small b ->
+  b_rights b < 16 -> (forall f, b_ep b = Some f -> f < 8) -> validate b = None ->
   is_legal b m = true ->
   Part (apply b m) /\ b_zob (apply b m) = scratch_piece_hash (apply b m).
 Proof.
-  intros b m P C Hr He V S L. destruct (validate_Inv b P C Hr He V) as [I K].
-  exact (apply_legal_consistent b m I K L S).
+  intros b m P C Hr He V L. destruct (validate_Inv b P C Hr He V) as [I K].
+  exact (apply_legal_consistent b m I K L).
 Qed.
 
 (* ------------------------------------------------------------------ *)
